@@ -51,6 +51,14 @@ func (s *SyntaxErrorListener) SyntaxError(recognizer antlr.Recognizer, offending
 	})
 }
 
+// ExpectEndOfInput reports the input the start rule left unread as a syntax error. The grammar's start rule does not end in
+// EOF, so the parser simply stops in front of the first token that cannot begin a declaration.
+func (s *SyntaxErrorListener) ExpectEndOfInput(parser antlr.Parser) {
+	if tok := parser.GetCurrentToken(); tok.GetTokenType() != antlr.TokenEOF {
+		s.SyntaxError(parser, tok, tok.GetLine(), tok.GetColumn(), "extraneous input '"+tok.GetText()+"' expecting a declaration or the end of the input", nil)
+	}
+}
+
 // HasErrors returns true if any syntax errors were collected
 func (s *SyntaxErrorListener) HasErrors() bool {
 	return len(s.Errors) > 0
